@@ -17,7 +17,7 @@ ENGINES = [
      "kind_free_text": "concurrent histories on the real layer-2 announcer + ARP responder over an in-memory PacketConn, checked with porcupine against a sequential model, under the race detector"},
     {"name": "direct-speaker", "path": "harness/speaker/direct_oracle_test.go c04/c10/c12", "serves_properties": ["C04", "C10", "C12"],
      "kind_free_text": "direct calls of the real layer-2 / BGP ShouldAnnounce decisions on generated and enumerated cluster views, one controller per node, eligibility / election oracle written from the statements"},
-    {"name": "frr-interp", "path": "harness/lib/frrinterp.go + harness/frr/c14_test.go + harness/frrk8s/c15_test.go + harness/controllers/c15_test.go", "serves_properties": ["C14", "C15"],
+    {"name": "frr-interp", "path": "harness/lib/frrinterp.go + harness/frr/c14_test.go + harness/frrk8s/c15_test.go + harness/frrk8s/c15x_test.go + harness/controllers/c15_test.go", "serves_properties": ["C14", "C15"],
      "kind_free_text": "translation validation: interpreter of the generated FRR configuration text (prefix-lists, route-maps, networks, neighbors) and structural oracle on the FRRConfiguration resource, cross-checked against each other"},
     {"name": "bgp-wire", "path": "harness/native/c16_test.go + harness/lib/rfc4271.go", "serves_properties": ["C16"],
      "kind_free_text": "bytes written by the real sendOpen/sendKeepalive/sendUpdate/sendWithdraw decoded by an independent RFC 4271 codec; hostile OPEN inputs (valid, structure-aware mutations, random) fed to the real readOpen under recover + watchdog + sentinel bytes"},
@@ -66,10 +66,10 @@ META = {
     },
     "C05": {
         "engine": "box-speaker",
-        "text": "After every handler return each live session must carry exactly the advertisements of the services the BGP controller holds (route withdrawn as soon as no service produces it, one live session per peer); at every quiescent point the routes, attributes (aggregate, local preference, communities), the set of live sessions and PeersForService are compared with the expectation computed from the resources (pools by the oracle's own parse, advertisement attachment and node / peer selection, eligibility rule, endpoints).",
+        "text": "After every handler return each live session must carry exactly the advertisements of the services the BGP controller holds (route withdrawn as soon as no service produces it, one live session per peer); at every quiescent point the routes, attributes (aggregate, local preference, communities), the set of live sessions and PeersForService are compared with the expectation computed from the resources (pools by the oracle's own parse, advertisement attachment and node / peer selection, eligibility rule, endpoints). One history in three carries one injected fault (the k-th NewSession call fails once); the step monitor keeps judging every handler return, the history ends at the next quiescent point.",
         "design_ref": "DESIGN.md 2/C05",
         "note": "Trusted: the speaker box (watch predicates, queues), the expectation oracle in harness/speaker/sbox_monitor_test.go. Endpoint addresses are unique per node (the Local-policy ambiguity of C10 is kept out).",
-        "technique": "runtime monitoring: expected-route oracle vs recording session manager after every step and at quiescence",
+        "technique": "runtime monitoring: expected-route oracle vs recording session manager after every step and at quiescence, with injected session-creation failures",
     },
     "C06": {
         "engine": "box-controller",
@@ -136,10 +136,10 @@ META = {
     },
     "C15": {
         "engine": "frr-interp",
-        "text": "Structural oracle on the FRRConfiguration handed to the config-changed callback (allowed prefixes sorted / de-duplicated, communities and local preferences listed for exactly their requesters, router prefixes == union, node selector == this node, session parameters, password xor secret, order independence) and agreement of the per-neighbor map prefix -> (local preference, communities) with the C14 interpretation of the FRR text rendered from the same sessions. Second run (reconciler): the real FRRK8sReconciler against a fake API that already stores metallb-<node> in one of 12 states (absent, equal, one difference inside or outside spec.bgp: node selector, raw section, router, neighbor, password, BFD profile, prefixes); the stored spec must equal the desired one, the desired configuration must stay untouched (also when dumped at debug level) and a second Reconcile must not write.",
+        "text": "Structural oracle on the FRRConfiguration handed to the config-changed callback (allowed prefixes sorted / de-duplicated, communities and local preferences listed for exactly their requesters, router prefixes == union, node selector == this node, session parameters, password xor secret, order independence) and agreement of the per-neighbor map prefix -> (local preference, communities) with the C14 interpretation of the FRR text rendered from the same sessions. Second run (reconciler): the real FRRK8sReconciler against a fake API that already stores metallb-<node> in one of 12 states (absent, equal, one difference inside or outside spec.bgp: node selector, raw section, router, neighbor, password, BFD profile, prefixes); the stored spec must equal the desired one, the desired configuration must stay untouched (also when dumped at debug level) and a second Reconcile must not write. Third run (concurrent, race detector): one goroutine per session calls Set on one session manager against a callback consumer that is sometimes slow before it stores and keeps only the last resource; the resource held after all calls returned must equal the one a fresh manager produces sequentially for the final session set.",
         "design_ref": "DESIGN.md 2/C15",
         "note": "SourceAddress is not demanded. Cross-check skipped for session sets FRR mode refuses.",
-        "technique": "translation validation: structural oracle + cross-check against the interpreted FRR text",
+        "technique": "translation validation: structural oracle + cross-check against the interpreted FRR text; runtime monitor of the resource delivered last under concurrent Set calls (race detector on)",
     },
     "C16": {
         "engine": "bgp-wire",
@@ -171,9 +171,9 @@ META = {
     },
     "C20": {
         "engine": "race-replay",
-        "text": "4-6 driver goroutines deliver service / pool (controller) and service / configuration / node (speaker) events through the real k8s.Listener while fetchers call CountersForPool, Announce.GetStatus (reading the advertisements the way the Layer2StatusReconciler does) and PeersForService (iterating the set) and consumers drain the callbacks; the Go race detector watches; panics and deadlocks are caught; the effective handler order, logged from inside the Listener lock, is replayed serially on fresh instances and allocator state, status writes, layer-2 announcements, sessions and PeersForService must be equal; the per-address sequence of requests for gratuitous announcements must be the one of the serial order. Third run (layer2): the real periodic interface scan runs twice on an announcer that still holds responders of vanished interfaces while handlers and fetchers run; the stale responders must be closed and dropped, nothing may panic or stay parked.",
+        "text": "4-6 driver goroutines deliver service / pool (controller) and service / configuration / node (speaker) events through the real k8s.Listener while fetchers call CountersForPool, Announce.GetStatus (reading the advertisements the way the Layer2StatusReconciler does) and PeersForService (iterating the set) and consumers drain the callbacks; the Go race detector watches; panics and deadlocks are caught; the effective handler order, logged from inside the Listener lock, is replayed serially on fresh instances and allocator state, status writes, layer-2 announcements, sessions and PeersForService must be equal; the per-address sequence of requests for gratuitous announcements must be the one of the serial order. Third run (layer2): the real periodic interface scan runs twice on an announcer that still holds responders of vanished interfaces while handlers and fetchers run; the stale responders must be closed and dropped, nothing may panic or stay parked. Controller rounds also judge what the concurrent readers see: each fetcher snapshot of a pool's counters must conserve assigned + available = usable size in one configuration version of the round, and the counters last fetched by the callback consumer must equal the allocator's once every notification is consumed.",
         "design_ref": "DESIGN.md 2/C20",
         "note": "Race-detector silence covers the executed interleavings only. Deadlock = no progress within 60 s with drivers parked inside MetalLB behind a Listener handler (violation, with the goroutine dump); no progress without that picture is inconclusive.",
-        "technique": "sanitizer (Go race detector) + serial replay in recorded lock order",
+        "technique": "sanitizer (Go race detector) + serial replay in recorded lock order + conservation monitor over concurrent counter snapshots",
     },
 }
